@@ -32,6 +32,21 @@ SPEC = {
             "encodings, rot13, escape_url x2, escape_controls x2, escape_quotes with inputs whose every byte needs a different escape, "
             "netloc 48-port ranges); one single-threaded pass is logged and judged as above, then 8 threads (barrier start) repeat "
             "their own records for 60/300 (asan) or 4/25 (tsan) rounds and every result must be byte-identical to that pass. "
+            "Hosts from neighbouring notations: every (host, port) with port in an 18-step ladder (0, 1, 9, 10, 79, 80, 99, 100, 443, 999, 1000, "
+            "8080, 9999, 10000, 32767, 32768, 65534, 65535) and host in: all 255 non-colon single bytes; each of them at both ends of longer "
+            "hosts; 116 hand-written bracket / @ / slash / ? / # / % / + / space / NUL / quote / backslash hosts; all-digit and port-like hosts; "
+            "inner strings wrapped in 15 delimiter pairs ([] () <> {} quotes ...) in 7 arrangements; 400/4000 random strings over a syntax-heavy "
+            "alphabet; EVERY string of length 1..4 (quick) / 1..5 (thorough) over {[ ] a 1 . - @ / %} (keys netloc:*:<family>). "
+            "Escapers: every string of length 3 over 12 and of length 4 over 8 characters of the escape notations themselves (% \\ x 4 1 \" ' n / "
+            "space + &; thorough: length 4 over 12, length 5 over 8) plus 46 already-escaped-looking strings, all five modes. "
+            "Cold start (harness/c11_cold.cc, asan 8 x 250/2500 and tsan 4 x 30/300 fresh processes): the parent never calls a C11 function; "
+            "each forked child starts 2..8 threads behind a spin barrier whose FIRST action (after a per-thread delay of 0..256 pause "
+            "iterations in half of the trials) is a C11 call - all threads the same function/mode (every function/mode in turn), two "
+            "functions that could share lazily built state, or a random mix - followed by 0..2 more calls per thread (including calls with a "
+            "caller-supplied alphabet as perturbers, logged but not judged); the cold results are judged by the Python oracle (keys "
+            "cold-start:<function>:<law>) and must equal a warm single-threaded repeat in the same process (cold-start:<function>:first-call-"
+            "differs-from-warm-repeat); every 4th child leaves through exit() (leak check), ThreadSanitizer watches the tsan children. "
+            "First-call overlap is measured with relaxed atomic counters (counters cold_processes_with_first_call_overlap). "
             "distinct_nontrivial = distinct (function, alphabet/mode, input shape, outcome / malformation reason) classes.",
     "level_text": "Strictness and inverse-ness are decided on completely enumerated small scopes (all short byte strings; all 4- and "
                   "8-character strings over a reduced alphabet that contains valid, padding, cross-alphabet, invalid, NUL and high "
@@ -44,6 +59,11 @@ SPEC = {
         # single-threaded pass (asan build), and ThreadSanitizer watches a shorter run of the same thing
         {"kind": "py", "name": "c11-mt", "tag": "c11-mt", "func": "c11:stage_mt", "variant": "asan", "class_prefix": "mt:"},
         {"kind": "py", "name": "c11-mt-tsan", "tag": "c11-mt-tsan", "func": "c11:stage_mt", "variant": "tsan", "class_prefix": "tsan:"},
+        # cold start: fresh processes (fork from a parent that never called a C11 function) whose 2..8 threads make the process's
+        # FIRST calls at the same moment; cold results judged by the Python oracle and compared with a warm repeat (asan), and the
+        # same under ThreadSanitizer (an unsynchronised first-use initialisation is a race whatever values come out)
+        {"kind": "py", "name": "c11-cold", "tag": "c11-cold", "func": "c11:stage_cold", "variant": "asan", "class_prefix": "cold:"},
+        {"kind": "py", "name": "c11-cold-tsan", "tag": "c11-cold-tsan", "func": "c11:stage_cold", "variant": "tsan", "class_prefix": "cold-tsan:"},
     ],
     "min_evaluations": 1000000,
     "min_classes": {"quick": 120, "thorough": 120},
@@ -79,11 +99,27 @@ SPEC = {
         "alignment:base64_decode:urlsafe:large", "alignment:rot13:std:len<=80", "alignment:rot13:std:large",
         "b64sweep:sampled-vs-python:std:*", "b64sweep:sampled-vs-python:urlsafe:*", "exec:b64sweep:std:*", "exec:b64sweep:urlsafe:*",
         "netloc:host-1char*", "netloc:host-255+*", "netloc:*highbytes*", "netloc:*:ports-from0", "netloc:*:ports-to65535",
+        "netloc-ladder:single-byte:*", "netloc-ladder:byte-at-ends:brackets", "netloc-ladder:syntax-chars:brackets",
+        "netloc-ladder:syntax-chars:syntax-chars", "netloc-ladder:all-digits-portlike:all-digits", "netloc-ladder:wrapped-in-delimiters:brackets",
+        "netloc-ladder:random-syntax-mix:*", "netloc-ladder:enum-syntax-alphabet:enumerated:L1:*", "netloc-ladder:enum-syntax-alphabet:enumerated:L4:*",
+        "netloc-ladder:enum-syntax-alphabet:brackets",
+        "cold:first-call:base64_encode:std", "cold:first-call:base64_encode:urlsafe", "cold:first-call:base64_decode:std",
+        "cold:first-call:base64_decode:urlsafe", "cold:first-call:base64_decode:std-explicit", "cold:first-call:rot13:*",
+        "cold:first-call:escape_url:flag0", "cold:first-call:escape_url:flag1", "cold:first-call:escape_controls:flag0",
+        "cold:first-call:escape_controls:flag1", "cold:first-call:escape_quotes:*", "cold:first-call:netloc:*",
+        "cold:first-call:trial-kind:same", "cold:first-call:trial-kind:pair", "cold:first-call:trial-kind:mixed",
+        "cold:first-call:threads2", "cold:first-call:threads8", "cold:first-calls-judged-by-python",
+        "cold-tsan:first-call:base64_encode:std", "cold-tsan:first-call:base64_decode:std", "cold-tsan:first-call:base64_decode:urlsafe",
+        "cold-tsan:first-call:rot13:*", "cold-tsan:first-call:escape_url:flag0", "cold-tsan:first-call:escape_controls:flag0",
+        "cold-tsan:first-call:escape_controls:flag1", "cold-tsan:first-call:escape_quotes:*", "cold-tsan:first-call:netloc:*",
+        "cold-tsan:first-call:trial-kind:same", "cold-tsan:first-call:threads2", "cold-tsan:first-call:threads8",
     ],
     "exhaustive": {"quick": False, "thorough": False},
     "exhaustive_note": "enumerated completely: byte strings of length 0..2 for every function; 4-character strings over 11 symbols "
                        "and 8-character strings over 6 (quick) / 7 (thorough) symbols for base64_decode with both alphabets; "
-                       "ports 0..65535 for every host. Longer inputs are sampled.",
+                       "ports 0..65535 for every host of the first netloc group; hosts of length 1..4 (quick) / 1..5 (thorough) over "
+                       "{[ ] a 1 . - @ / %} x 18 ports; escaper inputs of length 3 over 12 / length 4 over 8 escape-syntax characters. "
+                       "Longer inputs are sampled.",
     "assumptions": ASSUME_COMMON + [
         "Python base64 / urllib.parse.unquote_to_bytes and the predicate/unescaper in vf/oracles/c11.py are correct (self-tested "
         "at the start of every run)",
@@ -91,6 +127,10 @@ SPEC = {
         "well-formed strings with non-zero discarded bits (e.g. \"QR==\") are neither required to decode nor to throw",
         "concurrency: the functions are pure functions of their arguments; schedules are those the OS produced for 8 free-running "
         "threads per process; TSan reports races on the executions it saw",
+        "cold start: a process forked from a parent that never called a C11 function is as fresh, for the C11 functions, as a newly "
+        "exec'ed one (statics of libphosg untouched); first-call interleavings are those the OS produced for 2..8 threads released "
+        "together or with sub-microsecond offsets",
+        "netloc hosts are arbitrary non-empty byte strings without 0x3A; the port is 0..65535 and parse_netloc is called with default port 0",
         "permitted characters: escape_url -> [A-Za-z0-9-_.~=&] ('/' too unless escape_slash) and %HH; escape_controls -> 0x20..0x7E "
         "(plus >=0x80 when escape_non_ascii is false) with quote, apostrophe, backslash only inside \\-escapes; escape_quotes -> "
         "0x20..0x7E with every '\"' directly preceded by a backslash",
